@@ -3,7 +3,7 @@
 existing suite passes with it, the demonstration fails with it and passes without it.
 usage: verify_mutant.py <out-dir> <N>     (expects mN.diff, mN_demo.rs, mN.json in out-dir)"""
 import json, os, subprocess, sys, shutil
-WT = '/tmp/mverify'
+WT = os.environ.get('MVERIFY_WT', '/tmp/mverify')
 def sh(cmd, cwd=WT):
     env = dict(os.environ, CARGO_TARGET_DIR=WT + '/target', CARGO_NET_OFFLINE='true')
     return subprocess.run(cmd, shell=True, cwd=cwd, text=True, capture_output=True, env=env)
